@@ -235,6 +235,12 @@ def run(ck):
     finders = [p.find_function("sv.molecule_indels", "look_for_indels_in_breakage"),
                p.find_function("sv.segment_indels", "look_for_indels_in_breakage")]
 
+    ck.clause("C20.6", "label look-ups of the finders keep no state: nothing at module level is written while calls are produced "
+                       "(a cache shared by reference and query maps answers one with the other's position)")
+    from ..report import RuleView
+    from . import c10
+    sv_fns = [f for f in p.nontest_functions() if f.module.name.startswith("sv.") and not f.is_lambda]
+    c10.module_state(RuleView(ck, {"C10.1": "C20.6"}), fns=sv_fns, floor=15)
     cols, hnode = _header_columns(ck, writer)
     _writer_conserves(ck, writer, cluster)
     ix = {c: i for i, c in enumerate(cols)}
